@@ -201,6 +201,22 @@ CLAIMS["C01"] = dict(
          "are the round trip itself and are not analysed; copy() is C18.",
     technique="must-set dataflow on parenthesis rules + reserved-set evaluation vs lexer simulation + printer/tree field matrices")
 
+CLAIMS["C06"] = dict(
+    level="other", engine="pyflow",
+    text="Execution equivalence of the rendered SQL is NOT decided. Decided are the clauses the statement lists, as table "
+         "agreement / exhaustiveness between the grammars' finite vocabularies and the renderer's dispatch code: the language "
+         "of join_clause (9 strings, enumerated from the three grammars) is pushed through a partial evaluation of the join "
+         "dispatch of prepare_select and compared with the reference (join|outerjoin, full) table - kinds SQLAlchemy cannot "
+         "express must end in NotImplementedError; prepare_union maps class x unique to the six set constructors; the shared "
+         "order-by translation handles ASC/DESC and NULLS FIRST/LAST per term (no state carried between terms) and is used "
+         "by SELECT and OVER(); every operator spelling the grammars produce agrees with the reference method table; every "
+         "semantic field of Select/WindowFunction/Function/Case/TypeCast/OrderBy/Join/CTE/Insert/Update/Delete/CreateTable/"
+         "TableColumn/DropTables is effectively read by the code that renders that class (receiver-resolved) or refused; "
+         "generative SQLAlchemy results are never discarded; every aliasable to_expression branch reads t.alias.",
+    note="Reference tables (join kinds, set operations, operator methods) are SQLAlchemy's documented meaning, trusted; "
+         "literal values are C07's; numeric literal formatting by SQLAlchemy is trusted (seed C06_2 lives there).",
+    technique="partial evaluation of renderer dispatch x grammar-enumerated vocabularies + receiver-resolved clause coverage matrix")
+
 NA_PENDING = "check under construction in this session; not claimed until its rule module is committed"
 
 
